@@ -171,3 +171,31 @@ def no_unpickle_shortcut(model, R, rule):
                           extra={'consequence': 'members rebuilt from the flat state keep the class defaults objects == () / properties == () and have no dindex/atoms'} if not ok else None)
     if n == 0:
         R.unknown(rule, init, init.node, '_init call sites', 'no call of _init found')
+
+
+FROMARGS_FIELDS = {'definitions.Triple._fromargs': ['_objects', '_properties', '_pairs'], 'tools.Unique._fromargs': ['_seen', '_items']}
+
+
+def fromargs_args(model, caller, call):
+    """Arguments of a ``_fromargs(...)`` call in *field* order (the order of the fields the constructor helper stores them in),
+    whatever the helper's parameters are called and however the call spells them (position or keyword).  None when the
+    helper does not store each field from a distinct parameter or the call cannot be bound."""
+    from ..astutil import chain, stmts
+    bound = model.bind(caller, call)
+    if bound is None:
+        return None
+    from ..normalize import _resolve_callee
+    target, _ = _resolve_callee(model, caller, call)
+    fields = FROMARGS_FIELDS.get(target.key) if target is not None else None
+    if fields is None:
+        return None
+    stores = {}
+    for s in stmts(target.body):
+        if isinstance(s, ast.Assign) and len(s.targets) == 1:
+            c = chain(s.targets[0])
+            if c and len(c) == 2 and c[1] in fields and isinstance(s.value, ast.Name):
+                stores[c[1]] = s.value.id
+    if set(stores) != set(fields) or len(set(stores.values())) != len(fields):
+        return None
+    out = [bound.get(stores[f]) for f in fields]
+    return None if any(a is None for a in out) else out
